@@ -9,7 +9,14 @@ RULE = ("every catalogue assignment x seeded format assignments (kernels of the 
 
 
 def run(tier, seed):
-    return _pipe.run_field("C02", "c02", tier, seed, RULE, filt=FILTER)
+    out = _pipe.run_field("C02", "c02", tier, seed, RULE, filt=FILTER)
+    # "hence any result can be used as an input to another kernel, converted, compared or pickled without error":
+    # a third of the sparse-output kernels of the wide native pass chain their real result through to_format, ==,
+    # pickle and two further kernels
+    for cb in out["r"].get("chain_bad", []):
+        out["violations"].append(_pipe.violation(cb, "result-not-usable(" + cb["what"] + ")", "native-chain", "C02"))
+    out["coverage"]["chained_results"] = out["r"].get("chained", 0)
+    return out
 
 
 def replay(data):
